@@ -68,6 +68,8 @@ pub fn start_determining_calling_process_in_thread() {
 
             let (caller_mutex, determine_done) = &**CALLER;
 
+            #[cfg(dandavison_delta_verif)]
+            crate::verif_hooks::sched_point("T.lock");
             let mut caller = caller_mutex.lock().unwrap();
 
             if CALLER_INFO_SOURCE.load(DELTA_ATOMIC_ORDERING) <= CALLER_GUESSED {
@@ -75,6 +77,11 @@ pub fn start_determining_calling_process_in_thread() {
             }
 
             determine_done.notify_all();
+            #[cfg(dandavison_delta_verif)]
+            {
+                drop(caller);
+                crate::verif_hooks::sched_point("T.done");
+            }
         })
         .unwrap();
 }
@@ -84,22 +91,40 @@ pub fn set_calling_process(args: &[String]) {
     if let ProcessArgs::Args(result) = describe_calling_process(args) {
         let (caller_mutex, determine_done) = &**CALLER;
 
+        #[cfg(dandavison_delta_verif)]
+        crate::verif_hooks::sched_point("S.lock");
         let mut caller = caller_mutex.lock().unwrap();
         *caller = result;
         CALLER_INFO_SOURCE.store(CALLER_KNOWN, DELTA_ATOMIC_ORDERING);
         determine_done.notify_all();
+        #[cfg(dandavison_delta_verif)]
+        {
+            drop(caller);
+            crate::verif_hooks::sched_point("S.done");
+        }
     }
 }
 
 #[cfg(not(test))]
 pub fn calling_process() -> MutexGuard<'static, CallingProcess> {
     let (caller_mutex, determine_done) = &**CALLER;
+    #[cfg(dandavison_delta_verif)]
+    crate::verif_hooks::sched_point("Q.lock");
 
     determine_done
         .wait_while(caller_mutex.lock().unwrap(), |caller| {
             *caller == CallingProcess::Pending
         })
         .unwrap()
+}
+
+// Verification seam: publish a calling process directly (driver mode, no background thread).
+#[cfg(dandavison_delta_verif)]
+pub fn verif_set_caller(caller: CallingProcess) {
+    let (caller_mutex, determine_done) = &**CALLER;
+    let mut guard = caller_mutex.lock().unwrap_or_else(|e| e.into_inner());
+    *guard = caller;
+    determine_done.notify_all();
 }
 
 // The return value is duck-typed to work in place of a MutexGuard when testing.
@@ -428,6 +453,19 @@ where
     #[cfg(test)]
     {
         if let Some(args) = tests::FakeParentArgs::get() {
+            match extract_args(&args) {
+                ProcessArgs::Args(result) => return Some(result),
+                _ => return None,
+            }
+        }
+    }
+
+    // Verification seam mirroring FakeParentArgs above: the parent command line is an input
+    // of the harness instead of a scan of the process table.
+    #[cfg(dandavison_delta_verif)]
+    {
+        if let Ok(args) = std::env::var("DELTA_VERIF_PARENT_ARGS") {
+            let args: Vec<String> = args.split(' ').map(str::to_owned).collect();
             match extract_args(&args) {
                 ProcessArgs::Args(result) => return Some(result),
                 _ => return None,
